@@ -56,7 +56,8 @@ package database
 //@   ensures[C15.load-missing] fileMissing(filename) ==> result1 != nil && errorsIs(result1, fs.ErrNotExist) && istype(result1, *errors.AppError) && astype(result1, *errors.AppError) != nil && astype(result1, *errors.AppError).Cause != nil && os.IsNotExist(astype(result1, *errors.AppError).Cause)
 //@   ensures[C15.load-perm] filePermDenied(filename) ==> result1 != nil && errorsIs(result1, fs.ErrPermission)
 //@   trusted-ensures[C15.load-stable] (result1 == nil) <==> loadsOK(filename)
-//@   ensures[C01.load-inv] result1 == nil ==> dbInv(result0)
+//@   ensures[C01.load-inv+C03.load-inv] result1 == nil ==> dbInv(result0)
+//@   ensures[C03.load-index-current] result1 == nil ==> result0.uIndex != nil && result0.uIndex.N == len(result0.Commands) && idxOK(result0)
 
 //@ func LoadDatabaseWithPersonal
 //@   modifies nothing
@@ -66,7 +67,8 @@ package database
 //@   ensures[C15.lwp-main-perm] filePermDenied(mainDBPath) ==> result1 != nil && errorsIs(result1, fs.ErrPermission)
 //@   ensures[C15.lwp-real] loadsOK(mainDBPath) && (loadsOK(personalDBPath) || fileMissing(personalDBPath)) ==> result1 == nil
 //@   ensures[C15.lwp-main-fails] !loadsOK(mainDBPath) ==> result1 != nil
-//@   ensures[C01.lwp-inv] result1 == nil ==> dbInv(result0)
+//@   ensures[C01.lwp-inv+C03.lwp-inv] result1 == nil ==> dbInv(result0)
+//@   ensures[C03.lwp-index-current] result1 == nil ==> result0.uIndex != nil && result0.uIndex.N == len(result0.Commands) && idxOK(result0)
 
 // ---------------------------------------------------------------------------
 // Search pipeline vocabulary (C01, C04, C07, C10, C13)
